@@ -47,39 +47,41 @@ type Spec struct {
 }
 
 type Contract struct {
-	Key           string // "(Keeper).Borrow", "(*Commitments).AddCommittedTokens", "FuncName"
-	PkgPath       string
-	File          string
-	Line          int
-	Requires      []*Clause
-	Ensures       []*Clause
-	OnPanic       []*Clause // obligations on panicking exits
-	Assumes       []*Clause // state invariants assumed at entry (not proved at call sites; listed as assumptions)
-	Callers       []*Clause // the only functions allowed to call this one (Src is the comma-separated list)
-	Commutes      []*Clause // two calls (arguments X and X2) commute on the ghost world when the clause holds
-	Mints         []*Clause // for every bank mint on a path and every denom d with non-zero amount
-	Burns         []*Clause // likewise for burns
-	SupplyWrapper bool      // forwards its coins argument to a bank mint/burn: its callers are the sites
-	MigrationOnly bool      // must be unreachable from message and block entry points
-	Modifies      []string
-	HasMod        bool
-	Bounds        map[string]int
-	NoPanic       bool
-	Inline        bool
-	Entry         bool // an entry point of the chain (message handler or block function)
-	Reader        bool // reads the invariant's state only; its callers need no contract
-	InlineOwn     bool
-	Trusted       bool // assumed, not verified (listed in the evidence as an assumption)
-	Derived       string
-	HavocOnly     bool
-	FrameOnly     bool
-	Pure          bool
-	Alias         []string // positional parameter names of the interface method (receiver first)
-	Iface         bool     // contract of an interface method (hooks, external keepers)
-	DecAbs        bool
-	Foralls       map[string]smt.Sort // implicitly universally quantified identifiers
-	Lets          []letDecl
-	Fn            *ssa.Function
+	Key            string // "(Keeper).Borrow", "(*Commitments).AddCommittedTokens", "FuncName"
+	PkgPath        string
+	File           string
+	Line           int
+	Requires       []*Clause
+	Ensures        []*Clause
+	OnPanic        []*Clause // obligations on panicking exits
+	Assumes        []*Clause // state invariants assumed at entry (not proved at call sites; listed as assumptions)
+	Callers        []*Clause // the only functions allowed to call this one (Src is the comma-separated list)
+	Commutes       []*Clause // two calls (arguments X and X2) commute on the ghost world when the clause holds
+	Mints          []*Clause // for every bank mint on a path and every denom d with non-zero amount
+	Burns          []*Clause // likewise for burns
+	SupplyWrapper  bool      // forwards its coins argument to a bank mint/burn: its callers are the sites
+	MigrationOnly  bool      // must be unreachable from message and block entry points
+	Modifies       []string
+	HasMod         bool
+	Bounds         map[string]int
+	NoPanic        bool
+	Inline         bool
+	Entry          bool // an entry point of the chain (message handler or block function)
+	Reader         bool // reads the invariant's state only; its callers need no contract
+	InlineOwn      bool
+	CallersAssumed string
+	Instances      []ast.Expr
+	Trusted        bool // assumed, not verified (listed in the evidence as an assumption)
+	Derived        string
+	HavocOnly      bool
+	FrameOnly      bool
+	Pure           bool
+	Alias          []string // positional parameter names of the interface method (receiver first)
+	Iface          bool     // contract of an interface method (hooks, external keepers)
+	DecAbs         bool
+	Foralls        map[string]smt.Sort // implicitly universally quantified identifiers
+	Lets           []letDecl
+	Fn             *ssa.Function
 }
 
 type letDecl struct {
@@ -505,6 +507,10 @@ func (ss *SpecSet) directive(cur **Contract, pkgPath, file string, ln int, body 
 		(*cur).Inline = true
 	case "entry":
 		(*cur).Entry = true
+	case "callers-assumed":
+		// the preconditions of this function are assumed at its call sites (not followed
+		// upwards by the closure scan); reported as an assumption
+		(*cur).CallersAssumed = rest
 	case "reader", "other-tables":
 		// the (checked) frame of this function excludes the invariant's tables: its callers
 		// need no contract on its account
@@ -522,6 +528,18 @@ func (ss *SpecSet) directive(cur **Contract, pkgPath, file string, ln int, body 
 			return fail(fmt.Errorf("forall <name> <sort>"))
 		}
 		(*cur).Foralls[f[0]] = smt.Sort(f[1])
+	case "instances":
+		// instances <expr>, <expr>: ground terms (evaluated at entry) offered, next to the
+		// quantified constants, as instances of the universally quantified variables of the
+		// contracts applied at call sites
+		if *cur == nil {
+			return fail(fmt.Errorf("instances outside a contract"))
+		}
+		e, err := parser.ParseExpr("f(" + rest + ")")
+		if err != nil {
+			return fail(err)
+		}
+		(*cur).Instances = append((*cur).Instances, e.(*ast.CallExpr).Args...)
 	case "let", "letold":
 		i := strings.Index(rest, ":=")
 		if i < 0 || *cur == nil {
@@ -1099,6 +1117,29 @@ func (ev *evalEnv) call(x *ast.CallExpr) tval {
 			if !ok {
 				ev.fail(x, "second argument must be an identifier")
 			}
+			// a collection read without forking from a table written on this path: the fold
+			// of the choice is the choice of the folds
+			if mv, isMerged := coll.V.(*mergedV); isMerged {
+				foldOn := func(v Val) *smt.Term {
+					nm := ex.freshName("spec!merged")
+					saved, had := ev.vars[nm]
+					ev.vars[nm] = tval{v, coll.T}
+					args := append([]ast.Expr{ast.NewIdent(nm)}, x.Args[1:]...)
+					r := ex.term(ev.eval(&ast.CallExpr{Fun: x.Fun, Args: args}).V)
+					if had {
+						ev.vars[nm] = saved
+					} else {
+						delete(ev.vars, nm)
+					}
+					return r
+				}
+				a, b := foldOn(mv.A), foldOn(mv.B)
+				rt := intT
+				if a.Sort == smt.Bool {
+					rt = boolT
+				}
+				return tval{smt.Ite(mv.C, a, b), rt}
+			}
 			// Opaque reading: over a symbolic collection that this path never looked into,
 			// the fold is an uninterpreted function of the collection's identity and of the
 			// scalar variables the body mentions (definitions are revealed only where the
@@ -1298,7 +1339,17 @@ func (ev *evalEnv) call(x *ast.CallExpr) tval {
 					ev.oldVars[p] = av
 				}
 			}
+			// the body is read in the package that declares the define
+			savedPkg := ev.pkg
+			if d.Pkg != "" {
+				for _, pp := range ex.Cfg.Prog.AllPackages() {
+					if pp.Pkg.Path() == d.Pkg {
+						ev.pkg = pp.Pkg
+					}
+				}
+			}
 			r := ev.evalSpecVal(d.Body)
+			ev.pkg = savedPkg
 			for p, v := range saved {
 				if v == nil {
 					delete(ev.vars, p)
